@@ -161,7 +161,12 @@ pub fn check(seq: &[Fault], case_id: u64) -> Result<Outcome, String> {
     };
     l.set_nonblocking(true).map_err(|e| e.to_string())?;
     let mut peer = Peer { port, listener: Some(l) };
-    let use_host = seq.contains(&Fault::UseHostName);
+    // the host-name case is only meaningful where 'localhost' resolves to the loopback address the peer listens on
+    let resolves = {
+        use std::net::ToSocketAddrs;
+        ("localhost", 1u16).to_socket_addrs().map(|mut it| it.any(|a| a.ip() == std::net::IpAddr::V4(std::net::Ipv4Addr::LOCALHOST))).unwrap_or(false)
+    };
+    let use_host = seq.contains(&Fault::UseHostName) && resolves;
     let seq: Vec<Fault> = seq.iter().cloned().filter(|f| *f != Fault::UseHostName).collect();
     let seq = &seq[..];
     let starts_refused = matches!(seq.first(), Some(Fault::Refuse) | Some(Fault::LongRefuse) | Some(Fault::VeryLongRefuse));
